@@ -44,7 +44,9 @@ impl Parameters {
         let doc = docs.get(0).ok_or_else(
             || ParameterError::ParseError("The YAML file has no content".into()))?;
         let params = &doc["opw_kinematics_geometric_parameters"];
-        let dof = params["dof"].as_i64().unwrap_or(6) as i8;
+        // The documented place of 'dof' (and where to_yaml() prints it) is the top level,
+        // existing files also have it inside the geometric parameters.
+        let dof = doc["dof"].as_i64().or_else(|| params["dof"].as_i64()).unwrap_or(6) as i8;
         let mut sign_corrections = Self::read_sign_corrections(&doc["opw_kinematics_joint_sign_corrections"])?;
         if dof == 5 {
             // Block J6 at 0 by default for 5DOF robot.
